@@ -65,17 +65,88 @@ class Struct:
         return id(self)
 
     def fields(self):
-        return {k: getattr(self, k) for k in self._f}
+        return {k: v for k, v in vars(self).items() if k not in ("_t", "_f")}
 
     def copy_value(self):
-        return Struct(self._t, self.fields())
+        return Struct(self._t, {k: (v.copy_value() if hasattr(v, "copy_value") else v) for k, v in self.fields().items()})
 
     def assign_from(self, other):
-        for k in self._f:
-            setattr(self, k, getattr(other, k))
+        for k, v in other.fields().items():
+            setattr(self, k, v.copy_value() if hasattr(v, "copy_value") else v)
 
     def __repr__(self):
         return "%s{%s}" % (self._t, ", ".join("%s=%r" % kv for kv in self.fields().items()))
+
+
+class Obj:
+    """instance of a repository class: fields are attributes, set by running the class's constructors from source"""
+    def __init__(self, cls):
+        self._cls = cls
+
+    @property
+    def addr(self):
+        return id(self)
+
+    def _fields(self):
+        return {k: v for k, v in vars(self).items() if k != "_cls"}
+
+    def copy_value(self):
+        o = Obj(self._cls)
+        for k, v in self._fields().items():
+            setattr(o, k, v.copy_value() if hasattr(v, "copy_value") else v)
+        return o
+
+    def assign_from(self, other):
+        for k, v in other._fields().items():
+            setattr(self, k, v.copy_value() if hasattr(v, "copy_value") else v)
+
+    def __repr__(self):
+        return "%s%r" % (self._cls.split("::")[-1], self._fields())
+
+
+class Sym:
+    """an opaque global object (a constant domain, a value type descriptor): only its identity matters"""
+    _all = {}
+
+    def __init__(self, q):
+        self.q = q
+
+    @classmethod
+    def of(cls, q):
+        if q not in cls._all:
+            cls._all[q] = Sym(q)
+        return cls._all[q]
+
+    @property
+    def addr(self):
+        return id(self)
+
+    def copy_value(self):
+        return self
+
+    def __getattr__(self, name):
+        if name.startswith("_"):
+            raise AttributeError(name)
+        return Sym.of(self.q + "." + name)       # a field of an opaque object is opaque too
+
+    def __repr__(self):
+        return "<%s>" % self.q
+
+
+class VarPtr:
+    """pointer to a scalar local variable or field (out-parameters of C functions)"""
+    def __init__(self, get, set_, name):
+        self._get, self._set, self.name = get, set_, name
+
+    @property
+    def addr(self):
+        return id(self)
+
+    def load(self):
+        return self._get()
+
+    def store(self, v):
+        self._set(v)
 
 
 class Vec:
@@ -325,6 +396,40 @@ class CxxEvaluator(Evaluator):
         args = [conv(a, p.get("t")) for p, a in zip(func["params"], args)] + list(args[len(func["params"]):])
         return conv(Evaluator.call(self, func, this, args), func.get("ret"))
 
+    def construct(self, func, this, args):
+        """constructor from source: delegating and member initialisers (in declaration order as recorded), then the body"""
+        env = {}
+        for p, a in zip(func["params"], args):
+            env[p["id"]] = conv(a, p.get("t"))
+        for i in func.get("inits", []):
+            if i.get("base") and isinstance(i.get("init"), dict) and i["init"].get("k") == "ctor":
+                tgt = self.prog.funcs.get(i["init"].get("fid")) if self.prog else None
+                if tgt is not None and (tgt.get("inits") or tgt.get("body") is not None) and not i["init"].get("implicit"):
+                    self.construct(tgt, this, [self.eval(a, env, this) for a in i["init"]["a"]])
+                continue
+            if i.get("delegating"):
+                tgt = self.prog.funcs.get(i["init"].get("fid")) if self.prog else None
+                if tgt is None:
+                    raise Broken("delegating constructor target %s unknown" % i["init"].get("fid"))
+                self.construct(tgt, this, [self.eval(a, env, this) for a in i["init"]["a"]])
+            elif i.get("field") is not None:
+                v = self.eval(i["init"], env, this)
+                if isinstance(v, list) and len(v) == 1:
+                    v = v[0]
+                if isinstance(i["init"], dict) and i["init"].get("k") == "ilist":
+                    v = conv(v, i["init"].get("t"))
+                if hasattr(this, "on_store"):
+                    v = this.on_store(i["field"], v)
+                if i["field"] == "":
+                    continue        # anonymous union member: initialised through its named members
+                setattr(this, i["field"], v)
+        from absint import Ret
+        try:
+            self.block(func.get("body"), env, this)
+        except Ret:
+            pass
+        return this
+
     def _default(self, t):
         t = (t or "").replace("const ", "").strip()
         if t in self.defaults:
@@ -365,12 +470,40 @@ class CxxEvaluator(Evaluator):
             return Struct(t, dict(zip(self.structs[t], vals + [0] * (len(self.structs[t]) - len(vals)))))
         if k == "str":
             return Ptr([ord(c) for c in e["v"]] + [0], 0)
+        if k == "ref" and e.get("d") == "global" and e.get("q") not in self.globals and tinfo(e.get("t")) is None:
+            return Sym.of(e.get("q"))
+        if k == "ref" and e.get("d") == "func":
+            f = self.prog.funcs.get(e.get("fid")) if self.prog else None
+            if f is None:
+                raise Broken("reference to function %s whose body is not known" % e.get("q"))
+            return f
+        if k == "un" and e.get("op") == "&":
+            u = e["e"]
+            while isinstance(u, dict) and u.get("k") == "cast":
+                u = u["e"]
+            if isinstance(u, dict) and u.get("k") == "ref" and u.get("d") in ("local", "param", "slocal"):
+                cur = env.get(u["id"])
+                if cur is None or isinstance(cur, (int, bool)):
+                    vid, vt = u["id"], u.get("t")
+                    return VarPtr(lambda: env.get(vid), lambda v: env.__setitem__(vid, conv(v, vt)), u.get("n"))
+            if isinstance(u, dict) and u.get("k") == "mem":
+                b = self.eval(u["b"], env, this)
+                cur = getattr(b, u["n"], None) if not isinstance(b, dict) else b.get(u["n"])
+                if (cur is None or isinstance(cur, (int, bool))) and isinstance(b, (Obj, Struct)):
+                    nm, vt = u["n"], u.get("t")
+                    return VarPtr(lambda: getattr(b, nm, None), lambda v: setattr(b, nm, conv(v, vt)), nm)
         if k == "ctor":
             c = (e.get("c") or "")
             if not e.get("a") and self.hook_for("ctor:" + c) is None:
                 d = self._default(c)
                 if d is not None:
                     return d
+            if not e.get("a") and e.get("implicit") and self.hook_for("ctor:" + c) is None and \
+               not (self.prog is not None and (self.prog.funcs.get(e.get("fid")) or {}).get("inits")):
+                return Struct(c, {})       # implicitly default-constructed aggregate: fields are set by whoever fills it
+            f = self.prog.funcs.get(e.get("fid")) if (self.prog is not None and e.get("own")) else None
+            if f is not None and not e.get("implicit") and self.hook_for("ctor:" + c) is None and (f.get("body") is not None or f.get("inits")):
+                return self.construct(f, Obj(c), [self.eval(a, env, this) for a in e["a"]])
             if len(e.get("a", [])) == 1 and (e.get("cm") or "__normal_iterator<" in c):
                 v = self.eval(e["a"][0], env, this)
                 return v.copy_value() if hasattr(v, "copy_value") else v
@@ -414,7 +547,7 @@ class CxxEvaluator(Evaluator):
                 return cur if e.get("post") else new
         if k == "un" and e.get("op") == "*":
             v = self.eval(e["e"], env, this)
-            if isinstance(v, Ptr):
+            if isinstance(v, (Ptr, VarPtr)):
                 return v.load()
             if isinstance(v, It):
                 return v.deref()
@@ -436,7 +569,30 @@ class CxxEvaluator(Evaluator):
                 return b.arith("+", i).load()
             if isinstance(b, Vec):
                 return _chk_idx(b, i, "operator[]")
+            if isinstance(b, It):
+                return b.arith("+", i).deref()
             raise Broken("subscript of an object the evaluator does not model")
+        if k == "mem":
+            b = self.eval(e["b"], env, this)
+            if isinstance(b, It):
+                b = b.deref()
+            if isinstance(b, (Obj, Struct)):
+                if e["n"] == "":
+                    return b
+                if not hasattr(b, e["n"]):
+                    raise OutOfBounds("read of the field %s of %s before anything was stored in it" % (e["n"], getattr(b, "_cls", getattr(b, "_t", "?"))))
+                return getattr(b, e["n"])
+        if k == "call" and e.get("f", "").startswith(("std::make_unique<", "std::make_shared<")) and self.hook_for(e["f"]) is None and self.prog is not None and e.get("targs"):
+            T = e["targs"][0]
+            args = [self.eval(a, env, this) for a in e.get("a", [])]
+            last = T.split("::")[-1].split("<")[0]
+            cands = [f for f in self.prog.funcs.values() if f.get("cls") == T and f["n"] == last and len(f["params"]) == len(args)
+                     and (f.get("body") is not None or f.get("inits"))]
+            if len(cands) == 1:
+                return self.construct(cands[0], Obj(T), args)
+            if len(args) == 1 and isinstance(args[0], Obj) and args[0]._cls == T:
+                return args[0].copy_value()
+            raise Broken("cannot resolve the constructor of %s with %d arguments (%d candidates)" % (T, len(args), len(cands)))
         if k == "call" and e.get("f", "").startswith("std::swap<") and len(e.get("a", [])) == 2:
             a = self.eval(e["a"][0], env, this)
             b = self.eval(e["a"][1], env, this)
@@ -454,7 +610,7 @@ class CxxEvaluator(Evaluator):
         k = u.get("k")
         if k == "un" and u.get("op") == "*":
             tgt = self.eval(u["e"], env, this)
-            if isinstance(tgt, Ptr):
+            if isinstance(tgt, (Ptr, VarPtr)):
                 tgt.store(val)
                 return
             if isinstance(tgt, It):
